@@ -6,6 +6,16 @@
   the *environment*: every operation that may call them carries the addresses they answer with
   (`Env`), the theorems quantify over all answers that satisfy the stated assumptions.
 
+  ASSUMPTION ABOUT THE PAGE ALLOCATOR (not a property of this class): every page is
+  `page_size()`-aligned, `page_size()` is a power of two, and a page is not handed out again while
+  it is out (`PageOKenv`).  `do_allocate_in_new_page` returns the start of a fresh page for any
+  request with alignment <= page size without aligning it, so "aligned as requested" holds only on
+  such an allocator.  The `PageAllocator` interface does not document this; for the library's own
+  allocators it is pinned by `gen_page_allocator_alignment` (NewDeletePageAllocator asks
+  `operator new` for `align_val_t(_page_size)` with `_page_size = bit_ceil(..)`, everything else
+  forwards pages from it) and checked on the real allocators for page sizes 128 … 65536 by the
+  harness's spy (`page_misaligned`, `page_twice`).
+
   State = the C++ fields.  The three intrusive singly linked lists (`_last_page_array`,
   `_last_oversize_page_array`, `_last_destroy_task_array`, each linked through `next`) are Lean
   lists, newest array first; every array records its own address and the entries that are filled
@@ -621,6 +631,22 @@ def stmts_swiss_release : List String := [
 ]
 def stmts_shared_do_allocate : List String := [
   "return _resources.local().allocate(bytes,alignment)"
+]
+def stmts_newdelete_set_page_size : List String := [
+  "_page_size=::absl::bit_ceil(page_size)"
+]
+def stmts_newdelete_allocate : List String := [
+  "for(size_t i=0;i<num;++i){",
+  "pages[i]=::operator new(_page_size,::std::align_val_t(_page_size))",
+  "}"
+]
+def stmts_newdelete_deallocate : List String := [
+  "for(size_t i=0;i<num;++i){",
+  "::operator delete(pages[i],_page_size,::std::align_val_t(_page_size))",
+  "}"
+]
+def stmts_system_allocate : List String := [
+  "_allocator.allocate(pages,num)"
 ]
 end Skel
 
